@@ -443,6 +443,7 @@ func uniform(b string) []string {
 
 func plan(tier string) []*Tree {
 	var trees []*Tree
+	var recv []string // receiver shapes of the next tree added (reset by add)
 	add := func(layout string, o Opts, enc string, bs []string, ds []string, depth int, events []Event) {
 		track := true
 		for _, d := range ds {
@@ -454,7 +455,9 @@ func plan(tier string) []*Tree {
 			o.FileTmpl = "" // the option only exists for follow-schema
 			o.Schema = ""   // where the schema sources live does not matter for a single resolver file
 		}
-		trees = append(trees, &Tree{Idx: len(trees), Spec: TreeSpec{Layout: layout, Opts: o, Enc: enc, Bodies: bs, Decls: ds}, Depth: depth, Events: events, Track: track})
+		rv := recv
+		recv = nil
+		trees = append(trees, &Tree{Idx: len(trees), Spec: TreeSpec{Layout: layout, Opts: o, Enc: enc, Recv: rv, Bodies: bs, Decls: ds}, Depth: depth, Events: events, Track: track})
 	}
 	group := func(g string) []string {
 		var out []string
@@ -475,6 +478,32 @@ func plan(tier string) []*Tree {
 		return out
 	}
 	nMixed := (len(bodies) - 1 + len(positions) - 1) / len(positions)
+	// receiver shapes: position i of mixed tree t gets one of the first four shapes, (i+t) mod 4,
+	// so every mixed tree has each of them next to adversarial bodies; ALL shapes (also the
+	// parenthesised ones, which the pinned generator does not recognise - known finding - and
+	// which would otherwise hide what else happens to the body element underneath) are put on
+	// the plain-bodied methods of the "imports" group tree, position i gets shape i mod 6
+	shapes := func(t int) []string {
+		out := make([]string, len(positions))
+		for i := range out {
+			out[i] = recvShapes[(i+t)%4]
+		}
+		return out
+	}
+	allShapes := func() []string {
+		out := make([]string, len(positions))
+		for i := range out {
+			out[i] = recvShapes[i%len(recvShapes)]
+		}
+		return out
+	}
+	uniformShape := func(sh string) []string {
+		out := make([]string, len(positions))
+		for i := range out {
+			out[i] = sh
+		}
+		return out
+	}
 	layouts := []string{layoutFollow, layoutSingle}
 	all := append(append([]Event{}, baseEvents...), extraEvents...)
 
@@ -503,6 +532,7 @@ func plan(tier string) []*Tree {
 		add(layoutSingle, def, "", uniform("plain"), []string{"none"}, 1, baseEvents)
 		for _, l := range layouts {
 			for t := 0; t < nMixed; t++ {
+				recv = shapes(t)
 				add(l, mixedOpts[t%len(mixedOpts)], mixedEnc[t%len(mixedEnc)], mixed(t, 0), []string{"none"}, 1, baseEvents)
 			}
 			// the declaration group refers to the root type and to the Query resolver struct
@@ -511,6 +541,7 @@ func plan(tier string) []*Tree {
 			} else {
 				add(l, Opts{Type: optTypes[2]}, "no-final-newline", uniform("plain"), group("decls"), 1, baseEvents)
 			}
+			recv = allShapes()
 			add(l, def, "spaces", uniform("plain"), group("imports"), 1, baseEvents)
 			add(l, def, "nonascii-preamble", uniform("plain"), group("imports2"), 1, baseEvents)
 			add(l, Opts{Preserve: true}, "", uniform("plain"), []string{"helper-func"}, 1, preserveEvents)
@@ -541,9 +572,11 @@ func plan(tier string) []*Tree {
 	for _, l := range layouts {
 		for t := 0; t < nMixed; t++ {
 			add(l, def, "", mixed(t, 0), []string{"none"}, 2, baseEvents)
+			recv = shapes(t)
 			add(l, mixedOpts[t%len(mixedOpts)], mixedEnc[t%len(mixedEnc)], mixed(t, len(positions)/2), []string{"none"}, 1, all)
 		}
 		add(l, def, "", uniform("plain"), group("decls"), 2, baseEvents)
+		recv = allShapes()
 		add(l, def, "", uniform("plain"), group("imports"), 2, baseEvents)
 		add(l, def, "", uniform("plain"), group("imports2"), 1, all)
 	}
@@ -560,6 +593,10 @@ func plan(tier string) []*Tree {
 				n++
 				return o, encodings[n%len(encodings)]
 			}
+		}
+		for _, sh := range recvShapes[1:] { // one receiver shape on every method, everything else default
+			recv = uniformShape(sh)
+			add(l, def, "", uniform("plain"), []string{"none"}, 1, baseEvents)
 		}
 		for _, b := range bodies[1:] {
 			o, e := next()
@@ -816,7 +853,7 @@ func main() {
 		"body_alphabet": bn,
 		"package_names_reserved_by_resolver_gotpl_shadowed": templateNames,
 		"declaration_alphabet":                              dn,
-		"resolver_options":                                  map[string]any{"type": []string{"Resolver (default)", optTypes[1], optTypes[2]}, "filename_template": []string{"{name}.resolvers.go (default)", optFileTmpl, optFileNoName}, "schema_files": []string{"a.graphql+b.graphql (default)", "same-base: schema/a/types.graphql+schema/b/types.graphql", "case: types.graphql+Types.graphql"}, "file_encoding": encodings, "omit_template_comment": []bool{false, true}, "preserve_resolver": []bool{false, true}},
+		"resolver_options":                                  map[string]any{"type": []string{"Resolver (default)", optTypes[1], optTypes[2]}, "filename_template": []string{"{name}.resolvers.go (default)", optFileTmpl, optFileNoName}, "schema_files": []string{"a.graphql+b.graphql (default)", "same-base: schema/a/types.graphql+schema/b/types.graphql", "case: types.graphql+Types.graphql"}, "file_encoding": encodings, "receiver_shapes": recvShapes, "omit_template_comment": []bool{false, true}, "preserve_resolver": []bool{false, true}},
 		"layouts":                                           []string{layoutFollow, layoutSingle},
 		"closure":                                           "every history is followed by two regenerations",
 		"state_identity":                                    "SHA-256 over layout, current schema files, schema of last generation, hand-editable Go files of the resolver package",
